@@ -1,2 +1,229 @@
+"""Integer-function contracts (pyvc) shared by C06, C14 (index permutations) and C16.
+
+Spec vocabulary (DESIGN section 3):
+  C(n, k)        binomial coefficient on Z x Z (0 outside 0 <= k <= n)      [uninterpreted + Lean lemmas]
+  S(v, d, k)     sum_{j<=k} v[d-1-j]                                          [uninterpreted, unfold lemma]
+  RK(v, d, k)    sum_{j<k} C(S(v,d,j)+j, j+1)   (combinatorial number system) [uninterpreted, unfold lemma]
+"""
+from __future__ import annotations
+
+from vf import pyvc
+from vf.pyvc import SpecEnv
+
+SEQ = ("Seq", "Int")
+MAX64 = 9223372036854775807
+
+LEMMAS = {
+    # name: params, formula (spec syntax), Lean theorem in lemmas/PiquassoLemmas.lean
+    "absorb": dict(params=[("n", "Int"), ("k", "Int")], lean="PiquassoLemmas.absorb",
+                   formula="implies(n >= 0 and k >= 0, C(n, k + 1) * (k + 1) == C(n, k) * (n - k))"),
+    "C_zero": dict(params=[("n", "Int")], lean="PiquassoLemmas.C_zero",
+                   formula="implies(n >= 0, C(n, 0) == 1)"),
+    "C_out": dict(params=[("n", "Int"), ("k", "Int")], lean="PiquassoLemmas.C_out",
+                  formula="implies(n < 0 or k < 0 or n < k, C(n, k) == 0)"),
+    "C_pos": dict(params=[("n", "Int"), ("k", "Int")], lean="PiquassoLemmas.C_pos",
+                  formula="implies(0 <= k and k <= n, C(n, k) >= 1)"),
+    "symm": dict(params=[("n", "Int"), ("k", "Int")], lean="PiquassoLemmas.symm",
+                 formula="implies(0 <= k and k <= n, C(n, k) == C(n, n - k))"),
+    "pascal": dict(params=[("n", "Int"), ("k", "Int")], lean="PiquassoLemmas.pascal",
+                   formula="implies(n >= 0 and k >= 0, C(n + 1, k + 1) == C(n, k) + C(n, k + 1))"),
+    "mono_mul": dict(params=[("n", "Int"), ("j", "Int"), ("k", "Int")], lean="PiquassoLemmas.mono_mul",
+                     formula="implies(0 <= j and j <= k and 2 * k <= n, C(n, j) * j <= C(n, k) * k)"),
+    "S_unfold": dict(params=[("v", SEQ), ("d", "Int"), ("k", "Int")], lean="definition of S (recursive spec function)",
+                     formula="S(v, d, k) == ite(k < 0, 0, S(v, d, k - 1) + v[d - 1 - k])"),
+    "RK_unfold": dict(params=[("v", SEQ), ("d", "Int"), ("k", "Int")], lean="definition of RK (recursive spec function)",
+                      formula="RK(v, d, k) == ite(k <= 0, 0, RK(v, d, k - 1) + C(S(v, d, k - 1) + (k - 1), k))"),
+}
+
+SPEC = SpecEnv(
+    funs={
+        "C": (["Int", "Int"], "Int"),
+        "S": ([SEQ, "Int", "Int"], "Int"),
+        "RK": ([SEQ, "Int", "Int"], "Int"),
+    },
+    lemmas=LEMMAS,
+)
+
+INT64_PARAM = "-9223372036854775808 <= {0} and {0} <= 9223372036854775807"
+
+COMB = dict(
+    params=[("n", "Int"), ("k", "Int")],
+    returns="Int",
+    int64=True,
+    requires=[
+        INT64_PARAM.format("n"), INT64_PARAM.format("k"),
+        # the range in which numba's int64 arithmetic is exact: the largest intermediate is
+        # C(n, k') * k' with k' = min(k, n - k)
+        "implies(0 <= k and k <= n, C(n, min(k, n - k)) * min(k, n - k) <= 9223372036854775807)",
+    ],
+    ensures=["result == C(old(n), old(k))"],
+    loops={
+        "0": dict(invariant=[
+            "0 <= i", "i <= k", "prod == C(n, i)", "prod >= 1",
+        ]),
+    },
+    ghost={
+        "entry": ["use('C_out', n, k)", "use('C_zero', n)"],
+        "loop[0].start": ["use('absorb', n, i)", "use('mono_mul', n, i + 1, k)", "use('C_pos', n, i + 1)",
+                          "use('C_pos', n, k)"],
+        "exit": ["use('symm', n, old(k))"],
+    },
+)
+
+# callee contract of comb as seen by its callers (contract, not body)
+COMB_CALLEE = dict(
+    params=[("n", "Int"), ("k", "Int")],
+    returns="Int",
+    requires=COMB["requires"],
+    ensures=["result == C(n, k)"],
+)
+
+INT32 = 2147483647
+
+LEMMAS.update({
+    "C_ge_n": dict(params=[("n", "Int"), ("k", "Int")], lean="PiquassoLemmas.C_ge_n",
+                   formula="implies(1 <= k and k <= n - 1, C(n, k) >= n)"),
+    "mul_bound": dict(params=[("a", "Int"), ("b", "Int"), ("m", "Int")], lean="PiquassoLemmas.mul_bound",
+                      formula="implies(0 <= a and a <= m and 0 <= b and b <= m, a * b <= m * m)"),
+    "hockey_step": dict(params=[("d", "Int"), ("n", "Int")], lean="PiquassoLemmas.hockey_step",
+                        formula="implies(d >= 1 and n >= 0, C(d + n - 1, d) + C(d + n - 1, n) == C(d + n, d))"),
+})
+
+
+def index_contract(upto):
+    """get_index_in_fock_space (upto = 'd') / get_index_in_fock_subspace (upto = 'd - 1')."""
+    d = "len(element)"
+    K = f"({d})" if upto == "d" else f"({d} - 1)"
+    return dict(
+        params=[("element", SEQ)],
+        returns="Int",
+        int64=True,
+        requires=[
+            f"forall(lambda j: element[j] >= 0, 0, {d})",
+            # the property's own range: every partial sum and every partial index fits 32 bits
+            f"forall(lambda j: 0 <= S(element, {d}, j) and S(element, {d}, j) <= {INT32}, 0, {d})",
+            f"forall(lambda j: 0 <= RK(element, {d}, j) and RK(element, {d}, j) <= {INT32}, 0, {d} + 1)",
+            f"forall(lambda j: 0 <= C(S(element, {d}, j) + j, j + 1) and C(S(element, {d}, j) + j, j + 1) <= {INT32}, 0, {d})",
+            f"{d} <= {INT32}",
+        ],
+        ensures=[f"result == RK(element, {d}, {K})" if upto == "d" else
+                 f"result == ite({d} >= 1, RK(element, {d}, {d} - 1), 0)"],
+        loops={"0": dict(invariant=[
+            "0 <= i", f"i <= {K}" if upto == "d" else f"implies({d} >= 1, i <= {d} - 1)",
+            f"sum_ == S(element, {d}, i - 1)", f"accumulator == RK(element, {d}, i)",
+        ])},
+        ghost={
+            "entry": [f"use('S_unfold', element, {d}, 0 - 1)", f"use('RK_unfold', element, {d}, 0)"],
+            "loop[0].start": [
+                f"use('S_unfold', element, {d}, i)", f"use('RK_unfold', element, {d}, i + 1)",
+                f"use('symm', S(element, {d}, i) + i, i + 1)",
+                f"use('C_ge_n', S(element, {d}, i) + i, i + 1)",
+                f"use('C_out', S(element, {d}, i) + i, i + 1)",
+                f"use('mul_bound', C(S(element, {d}, i) + i, i + 1), min(i + 1, S(element, {d}, i) + i - (i + 1)), {INT32})",
+            ],
+        },
+    )
+
+
+DIM = dict(
+    params=[("cutoff", "Int"), ("d", "Int")], returns="Int", int64=True,
+    requires=["0 <= cutoff and cutoff <= 2147483647", "0 <= d and d <= 2147483647",
+              # exactness range of comb at these arguments
+              "implies(0 <= d and d <= d + cutoff - 1, C(d + cutoff - 1, min(d, cutoff - 1)) * min(d, cutoff - 1) <= 9223372036854775807)"],
+    ensures=["result == C(d + cutoff - 1, d)"],
+)
+SSC = dict(
+    params=[("d", "Int"), ("n", "Int")], returns="Int", int64=True,
+    requires=["0 <= n and n <= 2147483647", "0 <= d and d <= 2147483647",
+              "implies(0 <= n and n <= d + n - 1, C(d + n - 1, min(n, d - 1)) * min(n, d - 1) <= 9223372036854775807)"],
+    ensures=["result == C(d + n - 1, n)"],
+)
+
+XXPP_TO_XPXP = dict(
+    params=[("d", "Int")], returns=SEQ, int64=True, array_width=32,
+    requires=["0 <= d and d <= 1073741823"],
+    ensures=["len(result) == 2 * d",
+             "forall(lambda j: result[2 * j] == j and result[2 * j + 1] == d + j, 0, d)"],
+    loops={"0": dict(invariant=["0 <= i", "i <= d",
+                                "forall(lambda j: indices[2 * j] == j and indices[2 * j + 1] == d + j, 0, i)"])},
+)
+XPXP_TO_XXPP = dict(
+    params=[("d", "Int")], returns=SEQ, int64=True, array_width=32,
+    requires=["0 <= d and d <= 1073741823"],
+    ensures=["len(result) == 2 * d",
+             "forall(lambda j: result[j] == 2 * j and result[d + j] == 2 * j + 1, 0, d)"],
+    loops={"0": dict(invariant=["0 <= i", "i <= d",
+                                "forall(lambda j: indices[j] == 2 * j and indices[d + j] == 2 * j + 1, 0, i)"])},
+)
+
+CALLEES = {"comb": COMB_CALLEE}
+
+FUNCTIONS = {
+    "piquasso/_math/combinatorics.py:comb": (COMB, {}),
+    "piquasso/_math/indices.py:get_index_in_fock_space": (index_contract("d"), CALLEES),
+    "piquasso/_math/indices.py:get_index_in_fock_subspace": (index_contract("d-1"), CALLEES),
+    "piquasso/_math/fock.py:cutoff_fock_space_dim": (DIM, CALLEES),
+    "piquasso/_math/fock.py:symmetric_subspace_cardinality": (SSC, CALLEES),
+}
+TRANSFORMATIONS = {
+    "piquasso/_math/transformations.py:xxpp_to_xpxp_indices": (XXPP_TO_XPXP, {}),
+    "piquasso/_math/transformations.py:xpxp_to_xxpp_indices": (XPXP_TO_XXPP, {}),
+}
+
+
+def verify_all(run, table):
+    for fid, (contract, callees) in table.items():
+        if getattr(run, "only", None) and run.only not in fid:
+            continue
+        rel, qn = fid.split(":")
+        pyvc.verify_function(run, rel, qn, contract, SPEC, callees)
+
+
+def check(run):
+    verify_all(run, FUNCTIONS)
+
+
+def check_comb(run):
+    pyvc.verify_function(run, "piquasso/_math/combinatorics.py", "comb", COMB, SPEC)
+
+
 def check_transformations(run):
-    run.notes.append("pyvc obligations for transformations.py: not built yet")
+    verify_all(run, TRANSFORMATIONS)
+    inverse_permutation_lemma(run)
+
+
+def inverse_permutation_lemma(run):
+    """From the two post-conditions: A = xxpp_to_xpxp(d), B = xpxp_to_xxpp(d) are mutually inverse
+    permutations of range(2d), for every d (hand-instantiated quantifiers, linear arithmetic)."""
+    from vf import smt
+
+    base = """
+(declare-fun A () (Array Int Int))
+(declare-fun B () (Array Int Int))
+(declare-fun d () Int)
+(declare-fun i () Int)
+(assert (>= d 0))
+(assert (forall ((j Int)) (! (=> (and (<= 0 j) (< j d)) (and (= (select A (* 2 j)) j) (= (select A (+ (* 2 j) 1)) (+ d j)))) :pattern ((select A (* 2 j))))))
+(assert (forall ((j Int)) (! (=> (and (<= 0 j) (< j d)) (and (= (select B j) (* 2 j)) (= (select B (+ d j)) (+ (* 2 j) 1)))) :pattern ((select B j)))))
+(assert (and (<= 0 i) (< i (* 2 d))))
+; explicit instances
+(assert (=> (and (<= 0 i) (< i d)) (and (= (select A (* 2 i)) i) (= (select A (+ (* 2 i) 1)) (+ d i)) (= (select B i) (* 2 i)) (= (select B (+ d i)) (+ (* 2 i) 1)))))
+(assert (=> (and (<= 0 (- i d)) (< (- i d) d)) (and (= (select B (- i d)) (* 2 (- i d))) (= (select B (+ d (- i d))) (+ (* 2 (- i d)) 1)) (= (select A (* 2 (- i d))) (- i d)) (= (select A (+ (* 2 (- i d)) 1)) (+ d (- i d))))))
+(assert (=> (and (<= 0 (div i 2)) (< (div i 2) d)) (and (= (select A (* 2 (div i 2))) (div i 2)) (= (select A (+ (* 2 (div i 2)) 1)) (+ d (div i 2))) (= (select B (div i 2)) (* 2 (div i 2))) (= (select B (+ d (div i 2))) (+ (* 2 (div i 2)) 1)))))
+"""
+    goals = {
+        "A(B(i)) = i": "(= (select A (select B i)) i)",
+        "B(A(i)) = i": "(= (select B (select A i)) i)",
+        "0 <= A(i) < 2d": "(and (<= 0 (select A i)) (< (select A i) (* 2 d)))",
+        "0 <= B(i) < 2d": "(and (<= 0 (select B i)) (< (select B i) (* 2 d)))",
+    }
+    for gname, g in goals.items():
+        name = f"piquasso/_math/transformations.py:lemma/mutually-inverse-permutations/{gname}"
+        r = smt.solve(base + f"(assert (not {g}))")
+        if r.verdict == "unsat":
+            run.discharged(name, "pyvc", r.solver, r.seconds, sample={"goal": g})
+        elif r.verdict == "sat":
+            run.failed(name, "pyvc", r.solver, what=f"the index arrays are not mutually inverse: {gname}",
+                       counterexample=r.model, replay={"kind": "smt-model"}, reproduced=False, solver_output=r.output[:2000])
+        else:
+            run.undecided_ob(name, "pyvc", r.solver, f"solver answered {r.verdict}")
